@@ -1231,3 +1231,66 @@ def c08_columns(v):
     ok = len(order) == 6 and order[0] == 'BEGIN TRANSACTION' and order[-1] == 'COMMIT'
     v.oblige(st, z3.BoolVal(ok), "C08:lemma:one-transaction-per-flush", "statement order: %s" % order)
     v.assumptions_used.add('A-SQL')
+
+
+# ---------------------------------------------------------------------------------------------------- C07 (RT1, loop-free classes)
+
+def _rt1(v, qual, decoder_qual=None, extra_valid=()):
+    """encode-then-decode for one class: for an arbitrary valid value x of the class whose encoder returns normally, any
+    prefix and any trailing bytes, the REAL decoder run at the cursor over  prefix + enc(x) + rest  returns a value equal to
+    x (field by field) with the cursor exactly behind enc(x), and does not raise.  The decoder's body is executed here
+    (callees below it inlined too: these classes have no loops); enc(x) is unfolded through the real encoder."""
+    from pyvc import CLS
+    from pyvc.engine import Frame, Raised
+    from pyvc.types import BYTES_SORT
+    from .ghosts import GH
+    import importlib
+    cls = v.resolve(qual)
+    dec_cls = v.resolve(decoder_qual) if decoder_qual else cls
+    name = cls.__name__
+    tag = "C07:lemma:rt1:%s:" % name
+    st = State()
+    st.stack.append(Frame({}, None, importlib.import_module(cls.__module__).__dict__, 'lemma:C07.rt1.' + name))
+    x = v.fresh('x', CLS(name))
+    v.assume_valid(x, st)
+    st.frame.vars['x'] = x
+    for t in extra_valid:
+        st.assume(v.b(v.spec_bool(t, st)))
+    enc = GH.ghosts['enc_of'](v, st, x)          # unfolded encoding: the bytes the real stream_serialize writes
+    pre = v.fresh('prefix', BYTES)
+    rest = v.fresh('rest', BYTES)
+    data = V(v.mk_concat(pre.t, enc.t, rest.t), BYTES)
+    (s0, f), = list(v.new_stream([], st, data=data, pos=V(z3.Length(pre.t), INT)))
+    fn = None
+    for k in dec_cls.__mro__:
+        if 'stream_deserialize' in k.__dict__:
+            fn = k.__dict__['stream_deserialize'].__func__
+            break
+    v.force_inline_all = True
+    # below the decoder under test: the decoders of the component classes and safe_read are executed, not summarised (their
+    # contracts are of the RT2 kind and say nothing about WHICH value comes back); the VLQ pair stays a contract
+    v.inline_for_rt1 = {q for q in v.contracts if q.endswith('.stream_deserialize') or q.endswith('.safe_read')}
+    n_paths = 0
+    try:
+        for s2, r in v.call_function(fn, [dec_cls, f], {}, s0, inline=True):
+            n_paths += 1
+            if isinstance(r, Raised):
+                v.oblige(s2, z3.BoolVal(False), tag + "decoder-accepts-the-encoding",
+                         "the decoder raises %s on the encoder's output" % getattr(r.exc.cls, '__name__', r.exc.cls))
+                continue
+            rv = v.lift(r, s2) if not isinstance(r, V) else r
+            v.oblige(s2, rv.t == x.t, tag + "decodes-to-the-same-value", "stream_deserialize(prefix + enc(x) + rest) == x")
+            h = s2.heap[f.loc]
+            v.oblige(s2, h.fields['pos'].t == z3.Length(pre.t) + z3.Length(enc.t), tag + "cursor-behind-the-encoding",
+                     "cursor == len(prefix) + len(enc(x))")
+    finally:
+        v.force_inline_all = False
+    v.oblige(st, z3.BoolVal(n_paths > 0), tag + "decoder-executed", "paths: %d" % n_paths)
+
+
+# (the tagged classes - keys and signatures - and everything above them need a second solver and minutes per obligation for
+# the same statement; they stay with the bounded companion)
+LM.lemma("C07.rt1.OutputReference", props=["C07"])(lambda v: _rt1(v, "skepticoin.datatypes.OutputReference"))
+LM.lemma("C07.rt1.PowEvidence", props=["C07"])(lambda v: _rt1(
+    v, "skepticoin.datatypes.PowEvidence",
+    extra_valid=("len(x.summary_hash) == 32", "len(x.chain_sample) == 32", "len(x.block_hash) == 32")))
